@@ -211,6 +211,7 @@ Property make() {
   p.rule = "plan = ABF on 1-2 variables (5 kinds, 3-9 bins covering 0.5-1.3 of the visited range, subtractAppliedForce on half of them), fullSamples 1-20, minSamples below it, maxForce 40%, applyBias off 15%, hideJacobian 30%, "
            "a harmonic restraint or harmonic walls on the same variables 50%, same-step or lagged total forces, temperature 0 or 300 K, 80-150 steps in 1-4 run segments; non-trivial = at least one sample accumulated; "
            "distinct = hash of (variable kinds and flags, force convention, ABF options, segmentation)";
+  p.rule += " Later additions: maxForce is drawn per kind (angular variables a hundred times smaller) so that the cap binds.";
   p.assumptions = {"the model takes the variable's reported value and reported total force as given (their correctness is C02/C07) and decides attribution, eligibility, subtraction, accumulation, ramp, zero mean, cap",
                    "eligible = not the first step of a run and not a repeated step (stepZeroData off)",
                    "stop/restart of ABF is covered by C03; shared ABF by C14; eABF/CZAR and projected ABF not generated"};
